@@ -503,7 +503,9 @@ var strPool = []string{"", "a", "abc", "0", "1", "12.5", " x ", "中文", "é", 
 var intEdge = []int64{0, 1, -1, 2, 7, 10, 100, 255, 256, -128, 127, 65535, 1 << 31, -(1 << 31), 1<<53 + 1, 9007199254740993, math.MaxInt64, math.MinInt64, 1000000, 999999999999}
 
 var floatEdge = []float64{0, math.Copysign(0, -1), 1, -1, 0.1, 0.3, 2.5, -2.5, 1e22, 1e23, 5e-324, math.MaxFloat64, 9007199254740993, 1.7976931348623157e308, 1e-7, 123456.789,
-	math.NaN(), math.Inf(1), math.Inf(-1), 30.749999000000003, 1e15, 1e16, 0.5, 1.5}
+	math.NaN(), math.Inf(1), math.Inf(-1), 30.749999000000003, 1e15, 1e16, 0.5, 1.5,
+	// machine-integer boundaries as floats
+	9223372036854775808, -9223372036854775808, 18446744073709551616, 4294967296, 2147483648, -2147483649, 9223372036854774784, 1e19, 1e18}
 
 var zones = []string{"UTC", "Local", "Asia/Shanghai", "America/New_York", "Asia/Kolkata"}
 
